@@ -861,3 +861,39 @@ _make_rep('gmm', 100, 1500, max_K=3, max_D=4, max_lead=1, max_iterations=5)
 _make_rep('vmfmm', 100, 1500, max_K=3, max_D=4, max_lead=1, max_iterations=5)
 _make_rep('gcacgmm', 80, 1200, max_K=3, max_D=3, max_iterations=4)
 _make_rep('vmfcacgmm', 80, 1200, max_K=3, max_D=3, max_iterations=4)
+
+
+@subcheck(SUBCHECKS, 'gaussian_recording_sized', quick=3, thorough=12, min_nontrivial=0.0)
+def gaussian_recording_sized(d, ctx):
+    """weighted mean and pooled scatter of a whole recording (N*D of 4e6..1e7
+    values, where implementations switch to one-pass or blockwise sums), with a
+    common offset of up to 1e6 standard deviations; reference by exactly
+    rounded sums (math.fsum).  A few cases per run, seconds each."""
+    import pb_bss.distribution as dist
+    D = d.int(2, 6)
+    N = int(2 ** 22 * d.float(1.1, 2.0) / D) + d.int(0, 9)
+    ct = d.choice(['full', 'diagonal', 'spherical'])
+    offset = 10.0 ** d.float(0, 6)
+    with_sal = d.bool()
+    rng = d.rng()
+    y = rng.normal(size=(N, D)) * 10 ** rng.uniform(-0.5, 0.5, size=D) + \
+        offset * gen.unit(rng.normal(size=D))
+    sal = rng.uniform(0.1, 2.0, size=N) if with_sal else None
+    ctx.describe(D=D, N=N, covariance_type=ct, offset=offset, saliency=with_sal)
+    ctx.label('recording-sized', ct)
+    m = ctx.lib(dist.GaussianTrainer().fit, y, saliency=sal, covariance_type=ct)
+    w = np.ones(N) if sal is None else sal
+    tot = math.fsum(w)
+    mean = np.array([math.fsum(w * y[:, j]) for j in range(D)]) / tot
+    v = y - mean
+    S = np.empty((D, D))
+    for i in range(D):
+        for j in range(i, D):
+            S[i, j] = S[j, i] = math.fsum(w * v[:, i] * v[:, j]) / tot
+    cov = S if ct == 'full' else (np.diag(S).copy() if ct == 'diagonal'
+                                   else float(np.trace(S) / D))
+    require_close(np.asarray(m.mean), mean, 'gaussian-mean', rtol=1e-10, atol=1e-12)
+    require_close(np.asarray(m.covariance), cov, f'gaussian-covariance-{ct}',
+                  rtol=1e-8 + 1e-12 * offset, atol=1e-12,
+                  what=f'recording-sized, offset {offset:g}')
+    ctx.nontrivial(True)
